@@ -380,6 +380,7 @@ AddNano(i, n) ==
 LeakCfgs == << <<B("us-east-1"), B("s3")>>, <<B("us-east-1"), B("S3")>>, <<B("us-east-1"), B("sts")>>, <<B("aws-global"), B("iam")>>,
               <<B("us-gov-west-1"), B("execute-api")>>, <<B("cn-north-1"), B("s3-object-lambda")>>, <<B("local"), B("test")>>,
               <<B("us-east-1"), B("dynamodb")>> >>
+ManyCounts == <<18, 19, 21, 23, 25, 27, 29, 31, 33, 40, 64, 100>>
 ExpiresValues == << B("1"), B("60"), B("900"), B("3600"), B("86400"), B("604800"), B("0"), B("-1"), B("abc") >>
 ExpiresAges == << -1200, -901, -900, -899, -300, -61, -59, 0, 59, 899, 900, 901 >>
 FracNows == << Inst(2015, 8, 30, 12, 36, 0, 900000000), Inst(2015, 8, 30, 12, 36, 0, 500000000), Inst(2015, 8, 30, 12, 36, 0, 1),
@@ -702,6 +703,8 @@ Dim(k) ==
       [] Family = "leak_cfg" -> V(<<2, Len(LeakCfgs), 4>>, k)
       \* carrier, midnight case, what is wrong with the request
       [] Family = "leak_midnight" -> V(<<2, Len(MidnightCases), 3>>, k)
+      \* number of filler parameters, which parameter is repeated, where the two occurrences sit
+      [] Family = "manyparams" -> V(<<Len(ManyCounts), 3, 3>>, k)
       \* carrier, X-Amz-Expires value, where it travels, age of the request
       [] Family = "expires"  -> V(<<2, Len(ExpiresValues), 2, Len(ExpiresAges)>>, k)
       \* carrier, server instant with a fraction, probe, rendering
@@ -897,6 +900,26 @@ BundleOf ==
                 m == MidnightCases[idx[2]]
                 b2 == [b EXCEPT !.L.ts = m[1], !.cfg.now = m[2], !.L.scope = [@ EXCEPT ![1] = m[3]]]
             IN CASE idx[3] = 1 -> b2 [] idx[3] = 2 -> Inject(b2, 16, 1) [] OTHER -> [b2 EXCEPT !.script.secret = Secret2]
+      [] Family = "manyparams" ->
+            \* long Authorization parameter lists (unknown parameters are legal) in which one real parameter occurs twice,
+            \* the bogus occurrence first: the last one counts, wherever the two sit and however many others there are
+            LET n     == ManyCounts[idx[1]]
+                pre   == <<B("A"), B("D"), B("T"), B("x"), B("Credentia"), B("Signatur"), B("SignedHeader"), B("Z")>>
+                fill(i) == pre[((i * 7 + 3) % 8) + 1] \o Dec(i, 2) \o B("=v") \o Dec(i, 1)
+                cred  == B("Credential=") \o CredOf(B("AKIDEXAMPLE"))
+                sh    == B("SignedHeaders=host;x-amz-date")
+                sig   == B("Signature=") \o bSIG
+                good  == <<cred, sig, sh>>[idx[2]]
+                bad   == <<B("Credential=") \o CredOf(B("WRONG")), B("Signature=") \o [i \in 1..64 |-> 48], B("SignedHeaders=host")>>[idx[2]]
+                fixed == SelectSeq(<<cred, sig, sh>>, LAMBDA x : x # good)
+                third == n \div 3
+                base  == [i \in 1..third |-> fill(i)] \o <<fixed[1]>> \o [i \in 1..third |-> fill(third + i)] \o <<fixed[2]>>
+                         \o [i \in 1..(n - 2 * third) |-> fill(2 * third + i)]
+                mid   == Len(base) \div 2
+                a     == IF idx[3] = 3 THEN mid ELSE 0                     \* bogus occurrence after `a` entries
+                b     == IF idx[3] = 2 THEN mid ELSE Len(base)             \* real occurrence after `b` entries (a <= b)
+                ps    == SubSeq(base, 1, a) \o <<bad>> \o SubSeq(base, a + 1, b) \o <<good>> \o SubSeq(base, b + 1, Len(base))
+            IN WithPost(HdrB, << [k |-> "hdrset", h |-> 3, v |-> bAlgorithm \o <<32>> \o Join(ps, B(", "))] >>, NoOver)
       [] Family = "expires" ->
             \* the window is fixed: an X-Amz-Expires parameter / header (signed, like any other) neither widens nor narrows it
             LET b   == Bundle0(CarrierOf(idx[1]))
